@@ -234,7 +234,9 @@ def main(argv=None):
         if c.shards > 1:
             tl.extend(('contract', c.name, dict(opts, shard=(k, c.shards), budget_s=780)) for k in range(c.shards))
         else:
-            tl.append(('contract', c.name, opts))
+            # a contract may ask for a longer exploration budget than the default 600 s (wall clock, so it must leave room for a
+            # machine that is busy with other work)
+            tl.append(('contract', c.name, dict(opts, budget_s=c.policy['budget_s']) if 'budget_s' in c.policy else opts))
     for (mod, fn, shards) in cfg.get('bounded', []):
         n = shards[a.tier] if isinstance(shards, dict) else shards
         for s in range(n):
